@@ -234,7 +234,7 @@ def dec_import(o):
 
 # ---- implementation side ----------------------------------------------------------------------------
 EXC = {KeyError: "key", ValueError: "value", SyntaxError: "syntax", NotImplementedError: "notImpl", NameError: "name",
-       ZeroDivisionError: "zeroDiv", IndexError: "index", RecursionError: "recursion"}
+       ZeroDivisionError: "zeroDiv", IndexError: "index", RecursionError: "recursion", TypeError: "type"}
 QISKIT_USER = {"ch", "cu3", "id", "sdg", "tdg", "u2"}
 
 
@@ -524,7 +524,7 @@ def shape_programs(sizes, with_three=True, conditioned=False):
 
 def measure_shape_programs():
     """every operand shape of `measure` (element / last element / out of range / whole register, on both sides)
-    for registers of 1-3 (qu)bits, plain and — a recorded finding — behind an `if`"""
+    for registers of 1-3 (qu)bits"""
     for a in (1, 2, 3):
         for b in (1, 2, 3):
             hdr = [{"t": "version"}, {"t": "incl", "f": "qelib1.inc"}, {"t": "qreg", "n": "q", "k": a},
@@ -550,7 +550,13 @@ def barrier_shape_programs():
 MUTATIONS = ["undeclared_reg", "undeclared_gate", "index_range", "repeated_qubit", "arity_param", "arity_qubit",
              "reset", "opaque", "power", "function", "broadcast_mismatch", "free_id", "if_undeclared_creg",
              "measure_range", "measure_sizes", "body_undeclared_gate", "no_header", "body_arity", "zero_div",
-             "if_value_range", "index_in_broadcast", "barrier_undeclared"]
+             "if_value_range", "index_in_broadcast", "barrier_undeclared", "body_repeated_qubit",
+             "body_undeclared_qubit", "body_free_id", "body_barrier_undeclared", "empty_register", "creg_as_qubit",
+             "if_on_qreg"]
+# malformed / degenerate shapes whose treatment by the importer is a recorded finding: compared between model and
+# implementation (correspondence) but not generated by the oracle sweeps
+FINDING_MUTATIONS = ("if_value_range", "barrier_undeclared", "body_repeated_qubit", "body_barrier_undeclared",
+                     "empty_register")
 
 
 def mutate(rng, prog, kind):
@@ -597,6 +603,61 @@ def mutate(rng, prog, kind):
             return None
         q, c = rng.choice(pairs)
         prog.append({"t": "qop", "op": {"o": "measure", "q": [q[0], None], "c": [c[0], None]}})
+        return prog
+    if kind in ("body_repeated_qubit", "body_undeclared_qubit", "body_free_id", "body_barrier_undeclared"):
+        gd = [s for s in prog if s["t"] == "gate"]
+        if not gd:
+            return None
+        g = rng.choice(gd)
+        if kind == "body_barrier_undeclared":
+            g["body"].insert(rng.randint(0, len(g["body"])), {"o": "barrier", "qs": ["nosuchq"]})
+        elif kind == "body_free_id":
+            cs = [b for b in g["body"] if b["o"] == "U" or (b["o"] == "call" and b["ps"])]
+            if not cs:
+                return None
+            b = rng.choice(cs)
+            lst = b["e"] if b["o"] == "U" else b["ps"]
+            j = rng.randrange(len(lst))
+            lst[j] = ["*", lst[j], ["id", "nosuchparam"]]
+        else:
+            multi = [b for b in g["body"] if (b["o"] == "CX") or (b["o"] == "call" and len(b["qs"]) >= (2 if kind == "body_repeated_qubit" else 1))]
+            if not multi:
+                if kind == "body_repeated_qubit":
+                    g["body"].append({"o": "call", "n": "cx", "ps": [], "qs": [g["qs"][0], g["qs"][0]]})
+                else:
+                    return None
+            else:
+                b = rng.choice(multi)
+                if b["o"] == "CX":
+                    b["b"] = b["a"] if kind == "body_repeated_qubit" else "nosuchq"
+                elif kind == "body_repeated_qubit":
+                    b["qs"][1] = b["qs"][0]
+                else:
+                    b["qs"][rng.randrange(len(b["qs"]))] = "nosuchq"
+        # make sure the gate is called (bodies are only expanded on a call)
+        if sum(k for _, k in qregs[:1]) < len(g["qs"]):
+            return None
+        prog.append({"t": "qop", "op": {"o": "call", "n": g["n"], "ps": [["lit", "1"]] * len(g["ps"]),
+                                        "qs": [[qregs[0][0], i] for i in range(len(g["qs"]))]}})
+        return prog
+    if kind == "empty_register":
+        pos = max(i for i, s in enumerate(prog) if s["t"] in ("qreg", "creg", "incl", "version")) + 1
+        prog.insert(pos, {"t": "qreg", "n": "zz", "k": 0})
+        prog.append({"t": "qop", "op": {"o": "call", "n": "h", "ps": [], "qs": [["zz", None]]}})
+        return prog
+    if kind == "if_on_qreg":
+        if not idx_ops:
+            return None
+        i = rng.choice(idx_ops)
+        prog[i] = {"t": "if", "c": qregs[0][0], "k": 0, "op": prog[i]["op"]}
+        return prog
+    if kind == "creg_as_qubit":
+        if not idx_ops or not cregs:
+            return None
+        op = prog[rng.choice(idx_ops)]["op"]
+        j = rng.randrange(len(args_of(op)))
+        c = rng.choice(cregs)
+        set_arg(op, j, [c[0], rng.choice([None, 0])])
         return prog
     if kind == "body_undeclared_gate" or kind == "body_arity":
         gd = [s for s in prog if s["t"] == "gate"]
@@ -1036,7 +1097,7 @@ class C04(PropertyCheck):
             p = g.program()
             yield p
             if rng.random() < 0.5:
-                m = mutate(rng, p, rng.choice([k for k in MUTATIONS if k not in ("if_value_range", "barrier_undeclared")]))
+                m = mutate(rng, p, rng.choice([k for k in MUTATIONS if k not in FINDING_MUTATIONS]))
                 if m is not None:
                     yield m
 
